@@ -447,6 +447,18 @@ class Interp:
         self.unique_sites.append((call, f"{A}->{U}"))
         return True
 
+    def intersect_types(self, call: ast.Call):
+        if len(call.args) < 2:
+            return None
+        ta, tb = self.ev(call.args[0]), self.ev(call.args[1])
+        Xa = ta[1] if ta and ta[0] == "arr" else None
+        Xb = tb[1] if tb and tb[0] == "arr" else None
+        if Xa is None or Xb is None:
+            return None
+        key = u(call)
+        return [("set", Xa, key + "#ia"), ("set", Xb, key + "#ib"), ("mask", Xa, key + "#a_in_b", True, None),
+                ("lmap", Xa, Xb, key + "#a_in_b")]
+
     def seed_intersect(self, targets: list[ast.expr], call: ast.Call) -> bool:
         if len(targets) != 4 or len(call.args) < 2:
             return False
@@ -505,6 +517,27 @@ class Interp:
             return
         if isinstance(s, ast.Assign) and len(s.targets) == 1:
             tg = s.targets[0]
+            sub = s.value
+            if isinstance(sub, ast.Subscript) and isinstance(sub.value, ast.Call) and call_name(sub.value) == "intersect_sets":
+                types = self.intersect_types(sub.value)
+                if types is not None:
+                    picked = None
+                    if isinstance(sub.slice, ast.Slice) and sub.slice.step is None:
+                        lo = sub.slice.lower.value if isinstance(sub.slice.lower, ast.Constant) else (0 if sub.slice.lower is None else None)
+                        hi = sub.slice.upper.value if isinstance(sub.slice.upper, ast.Constant) else (4 if sub.slice.upper is None else None)
+                        if lo is not None and hi is not None:
+                            picked = types[lo:hi]
+                    elif isinstance(sub.slice, ast.Constant) and isinstance(sub.slice.value, int):
+                        picked = types[sub.slice.value]
+                    if isinstance(tg, ast.Tuple) and isinstance(picked, list) and len(picked) == len(tg.elts):
+                        for el, t_ in zip(tg.elts, picked):
+                            if isinstance(el, ast.Name):
+                                self.env[el.id] = t_
+                        return
+                    if isinstance(tg, ast.Name) and isinstance(picked, tuple):
+                        self.env[tg.id] = picked
+                        self.assign_types.setdefault(tg.id, []).append((s, picked))
+                        return
             if isinstance(tg, ast.Tuple) and isinstance(s.value, ast.Call):
                 nm = call_name(s.value)
                 if nm == "unique" and self.seed_unique(list(tg.elts), s.value):
